@@ -525,6 +525,13 @@ def onnxShapeSlice (l : List Int) (start : Int) (stop : Option Int) : List Int :
   let e := match stop with | some i => norm i | none => l.length
   (l.take e).drop s
 
+/-- ONNX `Gather(data, indices, axis=0)` on a 1-D `data` with 1-D `indices`, per the operator specification:
+every index must lie in `[-s, s-1]` (`s` = size of the axis), a negative index counts from the end; an index out
+of bounds is an error (`none`). -/
+def onnxGatherAxis0 (l : List Int) (idx : List Int) : Option (List Int) :=
+  let s : Int := l.length
+  seqOpt (idx.map fun i => if -s ≤ i ∧ i < s then l[(if i < 0 then i + s else i).toNat]? else none)
+
 def resolveZeros (inp : List Int) : List Int → Nat → Option (List Int)
   | [], _ => some []
   | d :: t, i =>
